@@ -20,7 +20,6 @@ mutual
 partial def toRStep (exprs : List (String × Acts.Expr)) (env : Acts.Vars) (s : Step) : Option RStep := do
   let c ← condVal exprs env s.cond
   if !s.catches.isEmpty || !s.timeouts.isEmpty || !s.setup.isEmpty || s.next.isSome then none
-  if !s.branches.isEmpty && !s.acts.isEmpty then none                   -- mixed steps are outside the fragment
   if (s.branches.filter (·.isElse)).length > 1 then none
   let bs ← s.branches.mapM (toRBranch exprs env)
   let as ← s.acts.mapM (toRAct exprs env)
@@ -43,6 +42,10 @@ partial def toRAct (exprs : List (String × Acts.Expr)) (env : Acts.Vars) (a : A
   else none
 end
 
+/-- a step with acts beside an `else` branch: when the `else` branch is decided / woken depends on the schedule (see `firstActDone`) -/
+partial def mixedElse (ss : List Step) : Bool :=
+  ss.any fun s => (!s.acts.isEmpty && s.branches.any (·.isElse)) || s.branches.any (fun b => mixedElse b.steps)
+
 def refCase (req : Lean.Json) : Lean.Json :=
   let w := parseWorkflow (jget req "model")
   let exprs := match jget req "exprs" with
@@ -60,6 +63,6 @@ def refCase (req : Lean.Json) : Lean.Json :=
       let a : Answered := fun i => ans.contains i
       Lean.Json.mkObj [("done", Lean.Json.bool (rw.done a)), ("opens", Lean.Json.arr ((rw.opens a).map Lean.Json.str).toArray),
         ("states", Lean.Json.arr ((rw.states a).map fun (i, st) => Lean.Json.arr #[Lean.Json.str i, Lean.Json.str st]).toArray)]
-    Lean.Json.mkObj [("in_fragment", Lean.Json.bool true), ("points", Lean.Json.arr out.toArray)]
+    Lean.Json.mkObj [("in_fragment", Lean.Json.bool true), ("final_only", Lean.Json.bool (mixedElse w.steps)), ("points", Lean.Json.arr out.toArray)]
 
 end Acts.Driver
